@@ -344,14 +344,15 @@ Lemma loop_bs : forall rem i hs qs blocks a2 a3 k s m,
       (ONormal (lst i' st g a2' a3' (pu ++ ps) (nu ++ ns) (blocks' ++ nones j) k' s' m')) /\
     prefix_of m m' /\ zlen pu = v /\ zlen nu = v /\ pu = hs' ++ pn /\ Forall (fun c => as_ptr c = VNull) pn /\
     vas m' BASE hs' blocks' /\ ImpFactsRelease.elem_ptrs m' nu /\
-    ((g = 0 /\ st = 0 /\ j = 0%nat /\ props_end rem s = Some s' /\ Forall byte s') \/ (g = 1 /\ st < 0)).
+    ((g = 0 /\ st = 0 /\ j = 0%nat /\ props_end rem s = Some s' /\ Forall byte s') \/ (g = 1 /\ st < 0)) /\
+    (k < 0 -> st = props_st rem s /\ (st = 0 -> k' = k)).
 Proof.
   pose proof (capacity_upper v ltac:(lia)) as (Hc1 & Hc8).
   induction rem as [|rem IH]; intros i hs qs blocks a2 a3 k s m Hrem Hi Hhs Hqs V Hel Hs NBP Hm.
   - (* all properties read *)
     assert (Ei : i = v) by lia. rewrite Ei in *. clear Ei.
     exists 0, 0, v, a2, a3, hs, (zeros (Z.to_nat (cap - v))), qs, (zeros (Z.to_nat (cap - v))), hs, [], blocks, 0%nat, k, s, m.
-    split; [|split; [exists []; now rewrite app_nil_r|split; [exact Hhs|split; [exact Hqs|split; [now rewrite app_nil_r|split; [constructor|split; [exact V|split; [exact Hel|left; repeat split; try reflexivity; exact Hs]]]]]]]].
+    split; [|split; [exists []; now rewrite app_nil_r|split; [exact Hhs|split; [exact Hqs|split; [now rewrite app_nil_r|split; [constructor|split; [exact V|split; [exact Hel|split; [left; repeat split; try reflexivity; exact Hs|intros _; split; reflexivity]]]]]]]]].
     unfold cs_loop, cs_props_seq, cs_body. cbn [fbody prog_sbdf_cs_read]. unl. unfold nones. cbn [repeat]. rewrite app_nil_r.
     eapply bsE_while_f; [evl; chk7; evl; rewrite Z.ltb_irrefl; reflexivity|reflexivity].
   - assert (Hiv : i < v) by lia.
@@ -381,8 +382,9 @@ Proof.
     2: { (* the name cannot be read *)
       exists st1, 1, i, VNull, a3, (hs ++ zeros (S a)), (zeros b), (qs ++ VNull :: zeros a), (zeros b), hs, (zeros (S a)), blocks, 0%nat, k1, s1, m1.
       split; [|split; [exists x1; exact Hm1|split; [rewrite zlen_app, zlen_zeros; unfold a; lia|split; [rewrite zlen_app, zlen_cons, zlen_zeros; unfold a; lia|split; [reflexivity|split; [apply ZN|
-               split; [apply (vas_mono m m1 Hmm1); exact V|split; [|right; split; [reflexivity|exact Hneg1]]]]]]]]].
+               split; [apply (vas_mono m m1 Hmm1); exact V|split; [|split; [right; split; [reflexivity|exact Hneg1]|]]]]]]]]].
       2: { unfold ImpFactsRelease.elem_ptrs. apply Forall_app. split; [apply (MONO m1 Hmm1)|constructor; [left; reflexivity|eapply Forall_impl; [|apply ZN]; cbv beta; intros c N; left; exact N]]. }
+      2: { intros Hk0. specialize (MT1 Hk0). cbn [props_st]. destruct (read_string false None s) as [[nm sR]|eR]; [unfold SBDF_OK in MT1; lia|]. split; [exact MT1|intros X; lia]. }
       unfold nones. cbn [repeat]. rewrite app_nil_r.
       replace ((hs ++ zeros (S a)) ++ zeros b) with pc0 by (unfold pc0; rewrite <- app_assoc, <- Zs; do 2 f_equal; lia).
       replace ((qs ++ VNull :: zeros a) ++ zeros b) with (qs ++ VNull :: zeros n1) by (rewrite <- app_assoc; cbn [app]; rewrite <- Zs, Hn1; reflexivity).
@@ -395,7 +397,7 @@ Proof.
     set (q := zlen m + 4) in *.
     set (nc1 := qs ++ VPtr RIn q :: zeros n1) in *.
     specialize (PP1 eq_refl).
-    cbn [props_nobit props_end] in NBP |- *.
+    cbn [props_nobit props_end props_st] in NBP |- *.
     destruct (read_string false None s) as [[nm sR]|eR] eqn:ERS; [|contradiction]. subst sR.
     destruct NBP as (NB1 & NBP).
     destruct (va_read_bs bv o rf ROut fo 0 k1 s1 (HP sl pc0 nc1 blocks) m1 VNull Hs1 NB1) as (st2 & e2 & sh2 & k2 & s2 & h2 & m3 & BV & (x2 & Hm3) & Out2 & PP2 & MT2 & KK2).
@@ -420,9 +422,10 @@ Proof.
       assert (X = nones j) by (rewrite Htl, HP_app in Hh2; apply HPinj in Hh2; apply app_inv_head in Hh2; exact Hh2). subst X.
       exists st2, 1, i, (VPtr RIn q), VNull, (hs ++ VNull :: zeros a), (zeros b), ((qs ++ [VPtr RIn q]) ++ zeros a), (zeros b), hs, (VNull :: zeros a), blocks, j, k2, s2, m3.
       split; [|split; [exists (x1 ++ x2); rewrite Hm3, Hm1, app_assoc; reflexivity|split; [rewrite zlen_app, zlen_cons, zlen_zeros; unfold a; lia|split; [rewrite !zlen_app, zlen_zeros; change (zlen [VPtr RIn q]) with 1; unfold a; lia|
-               split; [reflexivity|split; [constructor; [reflexivity|apply ZN]|split; [apply (vas_mono m m3 Hmm3'); exact V|split; [|right; split; [reflexivity|exact Hneg2]]]]]]]]].
+               split; [reflexivity|split; [constructor; [reflexivity|apply ZN]|split; [apply (vas_mono m m3 Hmm3'); exact V|split; [|split; [right; split; [reflexivity|exact Hneg2]|]]]]]]]]].
       2: { unfold ImpFactsRelease.elem_ptrs. apply Forall_app. split; [apply Forall_app; split; [apply (MONO m3 Hmm3')|constructor; [right; exists q; split; [reflexivity|exact Hq]|constructor]]|
              eapply Forall_impl; [|apply ZN]; cbv beta; intros c N; left; exact N]. }
+      2: { intros Hk0. assert (Hk1 : k1 < 0) by (rewrite (KK1 Hk0 eq_refl); exact Hk0). specialize (MT2 Hk1). destruct (Va.va_read false None s1) as [[va2 sV]|eV]; [unfold SBDF_OK in MT2; lia|]. split; [exact MT2|intros X; lia]. }
       replace ((hs ++ VNull :: zeros a) ++ zeros b) with (hs ++ VNull :: zeros n1) by (rewrite <- app_assoc; cbn [app]; rewrite <- Zs, Hn1; reflexivity).
       replace (((qs ++ [VPtr RIn q]) ++ zeros a) ++ zeros b) with nc1 by (unfold nc1; rewrite <- !app_assoc; cbn [app]; rewrite <- Zs, Hn1; reflexivity).
       unfold cs_loop, cs_props_seq, cs_body. cbn [fbody prog_sbdf_cs_read].
@@ -440,9 +443,10 @@ Proof.
     { unfold ImpFactsRelease.elem_ptrs. apply Forall_app. split; [apply (MONO m3 Hmm3')|constructor; [right; exists q; split; [reflexivity|exact Hq]|constructor]]. }
     destruct (IH (i + 1) (hs ++ [hb]) (qs ++ [VPtr RIn q]) (blocks ++ Some blk' :: newb') (VPtr RIn q) hb k2 s2 m3 ltac:(lia) ltac:(lia)
                 ltac:(rewrite zlen_app; change (zlen [hb]) with 1; lia) ltac:(rewrite zlen_app; change (zlen [VPtr RIn q]) with 1; lia) V3 El3 Hs2 NBP ltac:(lia))
-      as (st & g & i' & a2' & a3' & pu & ps & nu & ns & hs' & pn & blocks' & j & k' & s' & m' & BL & (x3 & Hm') & R1 & R2 & R3 & R4 & R5 & R6 & R7).
+      as (st & g & i' & a2' & a3' & pu & ps & nu & ns & hs' & pn & blocks' & j & k' & s' & m' & BL & (x3 & Hm') & R1 & R2 & R3 & R4 & R5 & R6 & R7 & R8).
     exists st, g, i', a2', a3', pu, ps, nu, ns, hs', pn, blocks', j, k', s', m'.
-    split; [|split; [exists (x1 ++ x2 ++ x3); rewrite Hm', Hm3, Hm1, !app_assoc; reflexivity|repeat (split; [assumption|]); exact R7]].
+    split; [|split; [exists (x1 ++ x2 ++ x3); rewrite Hm', Hm3, Hm1, !app_assoc; reflexivity|repeat (split; [assumption|])]].
+    2: { intros Hk0. assert (Hk1 : k1 = k) by (apply (KK1 Hk0 eq_refl)). assert (Hk2 : k2 = k) by (rewrite <- Hk1; apply KK2; [lia|reflexivity]). rewrite Hk2 in R8. exact (R8 Hk0). }
     rewrite <- !app_assoc in BL. cbn [app] in BL. fold n1 in BL.
     unfold cs_loop, cs_props_seq, cs_body in *. cbn [fbody prog_sbdf_cs_read] in *.
     eapply bsE_while_t; [apply COND|reflexivity| |exact BL].
@@ -471,7 +475,8 @@ Lemma props_main k2 s3 : Forall byte s3 -> props_nobit (Z.to_nat v) s3 ->
     (exists sB, bsE prog_env cs_props_seq (s6 bv o rf rp fo po so h v k2 s3 blkV newbV m2) (OBreak sB) /\ tl_ok st sB l' k' s' h' m') /\
     prefix_of m2 m' /\
     ((st = SBDF_OK /\ c_so l' = VCell L 0 /\ releasable bv o h h' m' /\ props_end (Z.to_nat v) s3 = Some s' /\ Forall byte s')
-     \/ (st < 0 /\ c_so l' = so /\ exists j, h' = h ++ nones j)).
+     \/ (st < 0 /\ c_so l' = so /\ exists j, h' = h ++ nones j)) /\
+    (k2 < 0 -> st = props_st (Z.to_nat v) s3).
 Proof.
   intros Hs3 NBP.
   pose proof (capacity_upper v ltac:(lia)) as (Hc1 & Hc8). unfold int_max in Hc8.
@@ -510,7 +515,7 @@ Proof.
   destruct (k2 =? 0) eqn:Ek2.
   { (* the property array cannot be allocated *)
     pose proof (cs_destroy_read_bs bv o h blkV newbV m2 (-1) s3 VRV) as D. fold sl0 in D. fold hY in D.
-    exists SBDF_ERROR_OUT_OF_MEMORY. eexists. exists (-1), s3. do 2 eexists. split; [|split].
+    exists SBDF_ERROR_OUT_OF_MEMORY. eexists. exists (-1), s3. do 2 eexists. split; [|split; [|split; [|intros X; lia]]].
     - eexists. split.
       + unfold cs_props_seq, cs_body. cbn [fbody prog_sbdf_cs_read].
         eapply bsE_seq_brk. eapply bsE_if; [unfold s6, crf, fr; cbn [c_cap c_err c_i c_t c_v c_a1 c_a2 c_a3 c_goto c_so app]; evl; chk7; evl; reflexivity|cbn [truth]; replace (v >? 0) with true by lia; reflexivity|].
@@ -558,7 +563,7 @@ Proof.
   destruct (kA =? 0) eqn:EkA.
   { (* the array of names cannot be allocated *)
     pose proof (destroy_props_only h blkV newbV m2 m2 (zeros c) (-1) s3 VRV ltac:(lia)) as D.
-    exists SBDF_ERROR_OUT_OF_MEMORY. eexists. exists (-1), s3. do 2 eexists. split; [|split].
+    exists SBDF_ERROR_OUT_OF_MEMORY. eexists. exists (-1), s3. do 2 eexists. split; [|split; [|split; [|intros X; unfold kA, next_fail in EkA; destruct (0 <? k2) eqn:E0; lia]]].
     - eexists. split.
       + unfold cs_props_seq, cs_body. cbn [fbody prog_sbdf_cs_read].
         eapply bsE_seq_brk. eapply bsE_if; [unfold s6, crf, fr; cbn [c_cap c_err c_i c_t c_v c_a1 c_a2 c_a3 c_goto c_so app]; evl; chk7; evl; reflexivity|cbn [truth]; replace (v >? 0) with true by lia; reflexivity|].
@@ -586,7 +591,7 @@ Proof.
     { eapply bsE_expr. evl. chk7. evl. chk7. change (0 + 1) with 1. erewrite setL; [|lia|unfold slc; reflexivity]. evl. reflexivity. }
     eapply bsE_expr. evl. chk7. reflexivity. }
   destruct (loop_bs (Z.to_nat v) 0 [] [] [] VUndef VUndef kB s3 m2 ltac:(lia) ltac:(lia) eq_refl eq_refl (vas_nil _ _) (Forall_nil _) Hs3 NBP ltac:(lia))
-    as (st & g & i' & a2' & a3' & pu & ps & nu & ns & hs' & pn & blocks' & j & k' & s' & m' & BL & Pf & R1 & R2 & R3 & R4 & R5 & R6 & R7).
+    as (st & g & i' & a2' & a3' & pu & ps & nu & ns & hs' & pn & blocks' & j & k' & s' & m' & BL & Pf & R1 & R2 & R3 & R4 & R5 & R6 & R7 & R8).
   cbn [app] in BL. replace (Z.to_nat (cap - 0)) with c in BL by (unfold c; lia).
   assert (BODY : bsE prog_env cs_props_seq (s6 bv o rf rp fo po so h v k2 s3 blkV newbV m2) (OBreak (lst i' st g a2' a3' (pu ++ ps) (nu ++ ns) (blocks' ++ nones j) k' s' m'))).
   { unfold cs_loop, cs_props_seq, cs_body in *. cbn [fbody prog_sbdf_cs_read] in *.
@@ -624,14 +629,14 @@ Proof.
   { intros kk sxx. pose proof (DGx h [] m' kk sxx eq_refl ltac:(lia)) as D. rewrite !app_nil_r in D. exact D. }
   destruct R7 as [(-> & -> & -> & PE & PBy)|(-> & Hneg)].
   - (* every property was read: the slice is handed out *)
-    exists SBDF_OK. eexists (Build_crl _ _ _ _ _ _ _ _ _ _). do 4 eexists. split; [|split; [exact Pf|left]].
+    exists SBDF_OK. eexists (Build_crl _ _ _ _ _ _ _ _ _ _). do 4 eexists. split; [|split; [exact Pf|split; [left|intros X; apply R8; unfold kB, kA, next_fail; destruct (0 <? k2) eqn:E0; [lia|]; rewrite E0; exact X]]].
     + eexists. split; [exact BODY|]. unfold tl_ok, cs_tail. cbn [fbody prog_sbdf_cs_read]. unl.
       eapply bsE_seq; [eapply bsE_if; [evl; reflexivity|reflexivity|]; eapply bsE_expr; evl; reflexivity|].
       eapply bsE_return. evl. reflexivity.
     + split; [reflexivity|]. split; [reflexivity|]. split; [|split; [exact PE|exact PBy]].
       exists HNEW. split; [reflexivity|]. split; [unfold HNEW; cbn [List.length]; lia|exact DGx].
   - (* a property could not be read: everything is released *)
-    exists st. eexists (Build_crl _ _ _ _ _ _ _ _ _ _). do 4 eexists. split; [|split; [exact Pf|right]].
+    exists st. eexists (Build_crl _ _ _ _ _ _ _ _ _ _). do 4 eexists. split; [|split; [exact Pf|split; [right|intros X; apply R8; unfold kB, kA, next_fail; destruct (0 <? k2) eqn:E0; [lia|]; rewrite E0; exact X]]].
     + eexists. split; [exact BODY|]. unfold tl_ok.
       apply (tail_fail st (VInt 1) (VInt cap) (VInt i') a2' a3' k' s' _ m' _ Hneg (DG k' s')).
     + split; [exact Hneg|]. split; [reflexivity|]. eexists. reflexivity.
@@ -663,11 +668,11 @@ Theorem props_ok so h : props_spec bv o rf rp fo po so h.
 Proof.
   intros k2 s3 m2 blk newb v VR Hv Hs3 NBP.
   destruct (Z_le_gt_dec v 134217727) as [Hsmall|Hbig].
-  - destruct (props_main so h v blk newb m2 VR ltac:(lia) k2 s3 Hs3 NBP) as (st & l' & k' & s' & h' & m' & (sB & B1 & B2) & Pf & Out).
-    exists st, l', k', s', h', m'. split; [exists sB; split; [exact B1|exact B2]|]. split; [exact Pf|exact Out].
+  - destruct (props_main so h v blk newb m2 VR ltac:(lia) k2 s3 Hs3 NBP) as (st & l' & k' & s' & h' & m' & (sB & B1 & B2) & Pf & Out & PST).
+    exists st, l', k', s', h', m'. split; [exists sB; split; [exact B1|exact B2]|]. split; [exact Pf|]. split; [exact Out|]. intros X. replace (134217727 <? v) with false by lia. apply PST. exact X.
   - destruct (props_big so h v blk newb m2 k2 s3 VR ltac:(lia)) as (sB & l' & h' & B1 & B2 & Ho & Hj).
     exists SBDF_ERROR_OUT_OF_MEMORY, l', k2, s3, h', m2. split; [exists sB; split; [exact B1|exact B2]|]. split; [exists []; now rewrite app_nil_r|].
-    right. split; [reflexivity|]. split; [exact Ho|exact Hj].
+    split; [right; split; [reflexivity|]; split; [exact Ho|exact Hj]|]. intros _. replace (134217727 <? v) with true by lia. reflexivity.
 Qed.
 End Props.
 
@@ -685,11 +690,13 @@ Theorem cs_read_full_source rf rp fo po k sx m h : Forall byte sx ->
           forall k' s', exists f1, forall g, (f1 <= g)%nat -> exists fin2,
             callC prog_env g prog_sbdf_cs_destroy [VCell (List.length h) 0] (inb fin) k' s' (h ++ hnew) = OReturn (VInt 0) fin2 /\
             inb fin2 = inb fin /\ lookup cells_var (vars fin2) = Some (VHeap (h ++ nones (List.length hnew))))
-     \/ (st < 0 /\ lookup "*out" (vars fin) = Some VUndef /\ exists j, lookup cells_var (vars fin) = Some (VHeap (h ++ nones j)))).
+     \/ (st < 0 /\ lookup "*out" (vars fin) = Some VUndef /\ exists j, lookup cells_var (vars fin) = Some (VHeap (h ++ nones j)))) /\
+    (* without allocation failures the status is the one the model's readers give *)
+    (k < 0 -> st = cs_st sx).
 Proof.
   intros Hs NB NBP.
-  destruct (cs_read_gen (VInt 0) [] rf rp fo po VUndef k sx h m Hs NB NBP (props_ok (VInt 0) [] rf rp fo po VUndef h)) as (st & l' & k' & s' & h' & m' & B & Pf & Out).
-  destruct (bsE_sound _ _ _ _ B) as (f0 & F). exists f0. intros f Hf. exists st. eexists. split; [apply F; exact Hf|]. split; [exact Pf|].
+  destruct (cs_read_gen (VInt 0) [] rf rp fo po VUndef k sx h m Hs NB NBP (props_ok (VInt 0) [] rf rp fo po VUndef h)) as (st & l' & k' & s' & h' & m' & B & Pf & Out & CST).
+  destruct (bsE_sound _ _ _ _ B) as (f0 & F). exists f0. intros f Hf. exists st. eexists. split; [apply F; exact Hf|]. split; [exact Pf|]. split; [|exact CST].
   destruct l'. cbv [ImpFactsCsRead.c_so] in Out.
   destruct Out as [(-> & -> & (hnew & -> & Hn & D) & s1 & va & s2 & v & s3 & E1 & E2 & E3 & E4 & E5 & _)|(Hn & -> & j & ->)].
   - left. split; [reflexivity|]. split; [reflexivity|]. split; [exists s1, va, s2, v, s3, s'; repeat split; assumption|].
